@@ -11,6 +11,7 @@ func init() {
 		Jobs: func(tier string) []runner.Job {
 			return []runner.Job{
 				{Harness: "c20.paths", Mode: "plain", Shards: 16},
+				{Harness: "c20.long", Mode: "plain", Shards: 16},
 				{Harness: "c20.reuse", Mode: "plain", Shards: 8},
 				{Harness: "c20.sched", Mode: "shim", Shards: 2},
 				{Harness: "c20.free", Mode: "racefree", Shards: 2, GC: "on"},
